@@ -360,11 +360,17 @@ pub fn judge(input: &str, toks: &[LexerToken]) -> Vec<Fault> {
     }
 
     // --- class shapes and operator spellings (independent of where the token sits)
-    for t in toks {
+    for (ti, t) in toks.iter().enumerate() {
         let tt = t.get_token_type();
         let tx = t.get_text().as_str();
         if tx.is_empty() {
             continue;
+        }
+        // a separator directly after a comment line: the comment's own line break is the first half of the blank line
+        if tt == TokenType::Subexpression && ti > 0 && toks[ti - 1].get_token_type() == TokenType::LineAnnotation && toks[ti - 1].get_text().ends_with('\n') {
+            if tx.chars().all(is_ws) && tx.contains('\n') {
+                continue;
+            }
         }
         match spelling_of(tt) {
             Some(sp) => {
@@ -531,6 +537,11 @@ pub fn judge(input: &str, toks: &[LexerToken]) -> Vec<Fault> {
             if matches!(t.get_token_type(), TokenType::CharList | TokenType::ByteList | TokenType::Annotation | TokenType::LineAnnotation) {
                 for b in spans[i].0..spans[i].1 {
                     masked[b] = true;
+                }
+                // the line break that ends a comment line is layout: together with a following line break it forms
+                // a blank line
+                if t.get_token_type() == TokenType::LineAnnotation && t.get_text().ends_with('\n') {
+                    masked[spans[i].1 - 1] = false;
                 }
             }
         }
